@@ -37,6 +37,8 @@ def shards(tier):
 
     n = 4 if tier == "quick" else 5
     out = [{"name": "search-%s" % shape_str(sh), "shape": list(sh)} for sh in shapes_upto(n, 1) if max_siblings(sh) <= len(POOL)]
+    # nodes that share an explicit data_id but carry different data (pattern searches go by *name*, per node)
+    out += [{"name": "search-sid-%s" % shape_str(sh), "shape": list(sh), "sid": True} for sh in shapes_upto(min(n, 4), 2) if max_siblings(sh) <= len(POOL)]
     # trees whose creation order differs from the document order (results must follow the tree)
     for sh in shapes_upto(3, 3):
         for order in topo_orders(sh)[1:3 if tier == "quick" else None]:
@@ -55,7 +57,8 @@ def shards(tier):
 
 def params(desc):
     n = len(desc["shape"])
-    return [("l%d" % i, "sel", 0, len(POOL) - 1) for i in range(n)] + [("k", "sel", 0, n + 1)]
+    sid = [("d%d" % i, "sel", 0, 1) for i in range(n)] if desc.get("sid") else []
+    return [("l%d" % i, "sel", 0, len(POOL) - 1) for i in range(n)] + sid + [("k", "sel", 0, n + 1)]
 
 
 def _ref_match(pat, name):
@@ -88,9 +91,12 @@ def body(ctx, desc, x):
     labels = [POOL[int(x["l%d" % i])] for i in range(n)]
     k = int(x["k"])
     kk = None if k == 0 else k
+    ids = None
+    if desc.get("sid"):
+        ids = ["shared-id" if int(x["d%d" % i]) else None for i in range(n)]
     try:
-        tree, nodes = build(shape, labels, node_ids=[1000 + i for i in range(n)], order=desc.get("order"))
-    except Exception:  # noqa: BLE001 - two siblings with one name: not constructible
+        tree, nodes = build(shape, labels, ids=ids, node_ids=[1000 + i for i in range(n)], order=desc.get("order"))
+    except Exception:  # noqa: BLE001 - two siblings with one name / one data_id: not constructible
         return ""
     ctx.mark()
     names = labels
@@ -123,6 +129,8 @@ def body(ctx, desc, x):
                     if first is not (ref[0] if ref else None) or alias is not first:
                         return "find_first(match)"
 
+    if ids is not None:
+        return ""  # explicit shared ids: the data/data_id lookups below assume id == calc_data_id(name)
     # lookups by data / data_id: index path (tree) and scan path (node)
     for name in POOL + ["zz"]:
         did = tree.calc_data_id(name)
